@@ -13,9 +13,22 @@ SELF = P.Pat(lambda t: t == ('self',), 'self')
 
 
 def find_poll(cx, pr, tk):
+    """the stop poll = the self method whose result decides the first branch of TokenizerWorker.read; fallback: a
+    one-argument method of the hierarchy that looks into the inbox"""
+    rd = cx.model.find_method(MOD, tk, 'read')
+    if rd is not None:
+        for l in cx.leaves_of(*rd):
+            for ct, tr, _ in l.conds:
+                t = ct
+                if t[0] == 'not':
+                    t = t[1]
+                if t[0] == 'call' and t[1][0] == 'attr' and t[1][1] == ('self',) and not t[2]:
+                    r = cx.model.find_method(MOD, tk, t[1][2])
+                    if r and any(isinstance(x, ast.Attribute) and x.attr in pr.inbox for x in ast.walk(r[2])):
+                        return r
     for m, c in cx.model.mro(MOD, tk):
         for n in c.body:
-            if isinstance(n, ast.FunctionDef) and n.name not in ('run', '_get_message', '_post_process') and any(isinstance(x, ast.Attribute) and x.attr == 'get_nowait' for x in ast.walk(n)) and len(n.args.args) == 1:
+            if isinstance(n, ast.FunctionDef) and n.name not in ('run', '_get_message', '_post_process', 'send') and any(isinstance(x, ast.Attribute) and x.attr in ('get_nowait', 'get') for x in ast.walk(n)) and len(n.args.args) == 1:
                 return (m, c, n)
     return None
 
@@ -55,11 +68,7 @@ def check(repo, rep):
     tk = pr.tok
     W = lambda n: cx.where(MOD, n)
     # ---------------------------------------------------------------- T2 the stop poll never blocks and recognises the stop marker
-    poll = None
-    for m, c in cx.model.mro(MOD, tk):
-        for n in c.body:
-            if isinstance(n, ast.FunctionDef) and n.name not in ('run', '_get_message') and any(isinstance(x, ast.Attribute) and x.attr == 'get_nowait' for x in ast.walk(n)) and len(n.args.args) == 1 and n.name != '_post_process':
-                poll = poll or (m, c, n)
+    poll = find_poll(cx, pr, tk)
     if poll is None:
         rep.unknown('no non-blocking stop poll found in the tokenizer worker hierarchy')
         return
@@ -111,7 +120,7 @@ def check(repo, rep):
                cx.where(sa_[0], sa_[2]), 'TokenizerWorker.stop_all:order', 'tokenizer stop at %s, observer stops at %s, reader close at %s' % (selfstop, obstop, rclose),
                sample=dict(stop_all=['self.stop()'] + ['observer.stop()'] * bool(obstop) + ['reader.close()'] * bool(rclose)))
         rep.ob('stop_all closes the reader (which stops the stream saver)', len(rclose) == 1, cx.where(sa_[0], sa_[2]), 'TokenizerWorker.stop_all:reader-close')
-    rep.floor('stop_all observer-loop paths', looped, 1)
+    rep.ob('stop_all stops the observers (a loop over the observer list exists)', looped >= 1, cx.where(sa_[0], sa_[2]), 'TokenizerWorker.stop_all:no-observer-loop')
     # stop = send(STOP) then join  (F7 of C12)
     st = cx.model.find_method(MOD, cx.cls(MOD, 'Worker'), 'stop')
     for l in cx.leaves_of(*st):
